@@ -150,6 +150,8 @@ func c09Run(c *core.Ctx) {
 			}
 			var dm dom
 			switch {
+			case ts.Bits == 8:
+				dm = dom{"all (each value 67x: long buffers)", genRepeat(minAmp(8), maxAmp(8), 67), 1, true}
 			case ts.Bits <= 16:
 				dm = dom{"all", genRange(minAmp(ts.Bits), maxAmp(ts.Bits)), 1, true}
 			case ts.Bits == 32 && !c.Quick():
@@ -258,6 +260,9 @@ func c09Run(c *core.Ctx) {
 			} else {
 				n = runSeqStrict(c, dm.gen, dm.shards, []int{2, 1, 3}, strict, newEval, point, orderFail)
 				evals.Add(n)
+			}
+			if ts.Bits == 8 {
+				n /= 67
 			}
 			distinct.Add(n)
 			if lattice != nil {
